@@ -21,6 +21,7 @@ import ast
 import copy
 import datetime as dt
 import itertools
+import os
 import types
 
 from mc.core import harness as H
@@ -235,6 +236,7 @@ def gen_cases(tier):
     for i in range(0, len(fc), CHUNK):
         yield {"corpus": "functions", "contexts": "functions", "items": [[e, low] for e, low in fc[i:i + CHUNK]]}
     yield {"corpus": "residue", "contexts": "residue", "items": [[b, None] for b in BINDERS]}
+    yield {"corpus": "config-path", "contexts": "config-path", "items": []}
     cn = [x for n in context_names() for x in (n, n.upper(), f"{n}()", f"{n}(description)")]
     for i in range(0, len(cn), CHUNK):
         yield {"corpus": "context-names", "contexts": "functions", "items": [[e, False] for e in cn[i:i + CHUNK]]}
@@ -251,10 +253,11 @@ FILE_POSITIONS = ["match", "let", "field", "tag", "variable", "transform"]
 def rules_text(expr, pos):
     var = f"v = {expr}\n" if pos == "variable" else ""
     tr = f"field.description = {expr}\n" if pos == "transform" else ""
-    let = f"let: x = {expr}\n" if pos == "let" else ""
-    match = expr if pos == "match" else ("v" if pos == "variable" else ("x != None" if pos == "let" else "true"))
-    tags = f"tags: {{{expr}}}, t\n" if pos == "tag" else "tags: t\n"
-    fld = f"field: f = {expr}\n" if pos == "field" else ""
+    # a top-level variable is read by a condition, by a let: binding, by a tag and by a field of the rule (its VALUE must reach all of them)
+    let = f"let: x = {expr}\n" if pos == "let" else ("let: x = v\n" if pos == "variable" else "")
+    match = expr if pos == "match" else ("v or x or true" if pos == "variable" else ("x != None" if pos == "let" else "true"))
+    tags = f"tags: {{{expr}}}, t\n" if pos == "tag" else ("tags: {v}, {x}, t\n" if pos == "variable" else "tags: t\n")
+    fld = f"field: f = {expr}\n" if pos == "field" else ("field: f = v\nfield: g = x\n" if pos == "variable" else "")
     return f"{var}{tr}\n[R]\n{let}match: {match}\ncategory: C\n{tags}{fld}"
 
 
@@ -459,9 +462,58 @@ def run_residue(binder):
     return out
 
 
+def run_config_path():
+    """Supplemental rows loaded the way `tally up` loads them (load_config + load_supplemental_sources from a budget on disk), then
+    queried by rules: evaluation reads the rows it was given - it opens no file and does not change the mapping."""
+    import shutil
+    from tally.config_loader import load_config, load_supplemental_sources
+    from tally.merchant_engine import parse_merchants
+    problems = []
+    base = os.path.join(R.scratch(), "c03budget")
+    shutil.rmtree(base, ignore_errors=True)
+    os.makedirs(os.path.join(base, "config"))
+    os.makedirs(os.path.join(base, "data"))
+    with open(os.path.join(base, "data", "orders.csv"), "w") as f:
+        f.write("Date,Item,Amount\n2025-01-15,Book,50.0\n2025-02-01,Pen,0.25\n")
+    with open(os.path.join(base, "data", "s.csv"), "w") as f:
+        f.write("Date,Description,Amount\n01/15/2025,NETFLIX 123,50.00\n")
+    with open(os.path.join(base, "config", "settings.yaml"), "w") as f:
+        f.write('year: 2025\ndata_sources:\n  - name: S\n    file: data/s.csv\n    format: "{date:%m/%d/%Y},{description},{amount}"\n'
+                '  - name: orders\n    file: data/orders.csv\n    format: "{date:%Y-%m-%d},{item},{amount}"\n    columns:\n      description: "{item}"\n    supplemental: true\n')
+    cfg = load_config(os.path.join(base, "config"))
+    ds = load_supplemental_sources(cfg, os.path.join(base, "config"))
+    before_keys = sorted(ds)
+    before = copy.deepcopy({k: (list(v) if v is not None else None) for k, v in dict(ds).items()})
+    eng = parse_merchants('[Ordered]\nlet: hits = [r.item for r in orders if r.amount == amount]\nmatch: len(hits) > 0 and any(r.item == "Pen" for r in orders)\n'
+                          'category: Shopping\ntags: {hits[0]}, {len(orders)}\nfield: n = len(orders)\n')
+    with audit.watch() as w:
+        try:
+            r = eng.match(dict(TXN), data_sources=ds)
+            r2 = eng.match(dict(TXN, amount=0.25), data_sources=ds)
+        except BaseException as e:  # noqa
+            problems.append(f"engine raised {type(e).__name__}: {str(e)[:100]}")
+            r = r2 = None
+    ev = [e for e in w.events if e[0] != "compile"]        # tag expressions are parsed (compiled to an AST) on first use
+    if ev:
+        problems.append(f"audit events while classifying with supplemental rows loaded from disk: {ev[:3]}")
+    after = {k: (list(v) if v is not None else None) for k, v in dict(ds).items()}
+    if sorted(ds) != before_keys or after != before:
+        problems.append("the supplemental-rows mapping was modified by evaluation")
+    if r is not None and not (r.matched and r2.matched):
+        problems.append("a rule querying rows loaded from disk did not match")
+    shutil.rmtree(base, ignore_errors=True)
+    return problems
+
+
 def check_case(case):
     viol, evals, nontrivial = [], 0, 0
     outcomes = set()
+    if case["corpus"] == "config-path":
+        probs = run_config_path()
+        for p in probs:
+            kind = ("audit-event" if "audit events" in p else "state-modified" if "modified" in p else "crash")
+            viol.append({"kind": kind, "detail": {"context": "rows loaded by load_supplemental_sources", "problem": p}, "case": case})
+        return {"evals": 1, "nontrivial": 1, "outcomes": ["config-path:" + ("ok" if not probs else "problem")], "violations": viol, "sample_repr": {"corpus": "config-path"}}
     if case["corpus"] == "residue":
         for binder, _ in case["items"]:
             for entry, reader, want, got, ok in run_residue(binder):
